@@ -6,6 +6,8 @@ import (
 	"bufio"
 	"bytes"
 	"context"
+	"crypto/sha1"
+	"encoding/hex"
 	"encoding/json"
 	"errors"
 	"fmt"
@@ -18,6 +20,7 @@ import (
 	"strconv"
 	"strings"
 	"sync"
+	"sync/atomic"
 	"time"
 
 	"github.com/pinealctx/neptune/syncx/pipe"
@@ -46,6 +49,8 @@ func main() {
 		corr.Main(spec(), os.Args[2:])
 	case "runscript":
 		runScriptChild()
+	case "shapes":
+		printShapes(os.Args[2])
 	default:
 		os.Exit(2)
 	}
@@ -60,6 +65,104 @@ func all(bs ...bool) bool {
 		}
 	}
 	return true
+}
+
+// Whole-body shape facts: every function the model is written against is pinned by the hash of its canonical text
+// (gofacts.Canon: locals renamed, `var x = e` ≡ `x := e`, white space collapsed), so a renamed local does not alarm and
+// any other edit inside a pinned body breaks the tie. `c14 shapes <repo>` prints the table for a tree.
+type fnRef struct{ file, recv, name string }
+
+func (r fnRef) key() string { return r.file + "|" + r.recv + "." + r.name }
+
+var shapeFiles = map[string]*gofacts.File{}
+
+func shapeOf(repo string, r fnRef) string {
+	f := shapeFiles[repo+"|"+r.file]
+	if f == nil {
+		f = gofacts.MustLoad(repo, r.file)
+		shapeFiles[repo+"|"+r.file] = f
+	}
+	fd := f.Func(r.recv, r.name)
+	if fd == nil {
+		return "absent"
+	}
+	sum := sha1.Sum([]byte(f.Canon(fd)))
+	return hex.EncodeToString(sum[:])[:12]
+}
+
+func refs(file string, names ...string) []fnRef {
+	var out []fnRef
+	for _, n := range names {
+		recv, name := "", n
+		if i := strings.Index(n, "."); i >= 0 {
+			recv, name = n[:i], n[i+1:]
+		}
+		out = append(out, fnRef{file, recv, name})
+	}
+	return out
+}
+
+func cat(ls ...[]fnRef) []fnRef {
+	var out []fnRef
+	for _, l := range ls {
+		out = append(out, l...)
+	}
+	return out
+}
+
+const (
+	fLine, fLineCtx   = "syncx/pipe/line/line.go", "syncx/pipe/line/ctx.go"
+	fMline, fMlineCtx = "syncx/pipe/mline/mline.go", "syncx/pipe/mline/ctx.go"
+	fRunner, fCtx     = "syncx/pipe/async/runner.go", "syncx/pipe/async/ctx.go"
+	fPchan, fReflect  = "syncx/pipe/async/procchan.go", "syncx/pipe/async/ctxreflect.go"
+	fQ, fAQ           = "syncx/pipe/q/q.go", "syncx/pipe/async/q.go"
+	fUtil, fOpt       = "syncx/pipe/util.go", "syncx/pipe/option.go"
+)
+
+// the groups of pinned functions, one Lean fact each (order = field order of Nv.C14.Facts)
+var factGroups = []struct {
+	name string
+	fns  []fnRef
+}{
+	{"popLoops", cat(refs(fLine, "Line.popLoop"), refs(fMline, "MultiLine.popLoop"), refs(fRunner, "RunnerQ.popLoop"), refs(fPchan, "ProcChan.popLoop"))},
+	{"runGuards", cat(refs(fLine, "NewLine", "newLine", "Line.Run"), refs(fRunner, "NewRunnerQ", "RunnerQ.Run"), refs(fPchan, "NewProcChan", "ProcChan.Run"))},
+	{"resultCells", cat(refs(fLineCtx, "newAsyncCtx", "AsyncCtx.SetR", "AsyncCtx.R"), refs(fMlineCtx, "newAsyncCtx", "AsyncCtx.SetR", "AsyncCtx.R"),
+		refs(fCtx, "callCtxT.r", "delegateCtxT.r", "procCtxT.r"), refs(fPchan, "procChanCtxT.r"))},
+	{"runBodies", cat(refs(fCtx, "callCtxT.run", "delegateCtxT.run", "procCtxT.run"), refs(fPchan, "procChanCtxT.run"))},
+	{"stopBodies", cat(refs(fLine, "Line.Stop"), refs(fMline, "MultiLine.Stop", "MultiLine.stop", "MultiLine.signalDone", "MultiLine.WaitStop"),
+		refs(fRunner, "RunnerQ.Stop", "RunnerQ.WaitStop"), refs(fPchan, "ProcChan.Stop", "ProcChan.WaitStop"))},
+	{"entryPoints", cat(refs(fLine, "Line.AsyncCall", "Line.addCallCtx"), refs(fLineCtx, "NewCallCtx"), refs(fMline, "MultiLine.AsyncCall"), refs(fMlineCtx, "NewCallCtx"),
+		refs(fRunner, "RunnerQ.AsyncCall", "RunnerQ.AsyncDelegate", "RunnerQ.AsyncProc", "RunnerQ.addCallCtx", "RunnerQ.addDelegateCtx", "RunnerQ.addProcCtx"),
+		refs(fCtx, "newCallCtx", "newDelegateCtx", "newProcCtx"), refs(fPchan, "newProcChanCtx", "ProcChan.AsyncProc"),
+		refs(fReflect, "validateFn", "inValidateCache", "addType2Validation"), refs(fUtil, "ConvertQueueErr"))},
+	{"laneIsSlot", cat(refs(fMline, "NewMultiLine", "newMux", "MultiLine.IndexOf", "MultiLine.addCallCtx"), refs(fOpt, "GetOption", "WithSlotSize", "WithQSize"))},
+	{"queueBodies", cat(refs(fQ, "NewQ", "WithSize", "Q.AddReqAnyway", "Q.AddReq", "Q.AddPriorReq", "Q.Pop", "Q.PopAnyway", "Q.Close", "Q.pop"),
+		refs(fAQ, "NewQ", "Q.IsClosed", "Q.Size", "Q.AddAnyway", "Q.Add", "Q.AddPrior", "Q.Pop", "Q.PopAnyway", "Q.Close", "Q.pop"))},
+}
+
+// configuration-selecting functions: shape -> value
+var cfgShapes = map[string]map[string]string{
+	fPchan + "|ProcChan.addCallCtx": {"e6addb24eee3": "racyThreeWaySelect", "f87669119610": "stopFirst"},
+	fMline + "|MultiLine.Run":       {"724e83e64409": "unguarded", "bbf7cdfd0d1d": "once"},
+}
+
+// methods of the two queue types that touch the queue state: each must take the lock first and release it by defer
+var lockedQ = cat(refs(fQ, "Q.AddReq", "Q.AddPriorReq", "Q.Close", "Q.pop"), refs(fAQ, "Q.IsClosed", "Q.Add", "Q.AddPrior", "Q.Close", "Q.pop"))
+
+func printShapes(repo string) {
+	for _, g := range factGroups {
+		for _, r := range g.fns {
+			fmt.Printf("\t%q: %q,\n", r.key(), shapeOf(repo, r))
+		}
+	}
+	for k := range cfgShapes {
+		parts := strings.SplitN(k, "|", 2)
+		recv, name := "", parts[1]
+		if i := strings.Index(name, "."); i >= 0 {
+			recv, name = name[:i], name[i+1:]
+		}
+		fmt.Printf("cfg %s: %s\n", k, shapeOf(repo, fnRef{parts[0], recv, name}))
+	}
 }
 
 func extract(repo, leanDir string) {
@@ -84,134 +187,55 @@ func extract(repo, leanDir string) {
 		}
 	}
 
-	ln := gofacts.MustLoad(repo, "syncx/pipe/line/line.go")
-	lnc := gofacts.MustLoad(repo, "syncx/pipe/line/ctx.go")
-	ml := gofacts.MustLoad(repo, "syncx/pipe/mline/mline.go")
-	mlc := gofacts.MustLoad(repo, "syncx/pipe/mline/ctx.go")
-	rn := gofacts.MustLoad(repo, "syncx/pipe/async/runner.go")
-	rc := gofacts.MustLoad(repo, "syncx/pipe/async/ctx.go")
-	pc := gofacts.MustLoad(repo, "syncx/pipe/async/procchan.go")
-	pq := gofacts.MustLoad(repo, "syncx/pipe/q/q.go")
-	aq := gofacts.MustLoad(repo, "syncx/pipe/async/q.go")
-
-	popAnyway := func(body, recv string) bool {
-		return gofacts.Has(body, recv+".PopAnyway()") && !gofacts.Has(body, recv+".Pop()")
+	var fs, changed []string
+	for _, g := range factGroups {
+		ok := true
+		for _, r := range g.fns {
+			if got := shapeOf(repo, r); got != expectedShapes[r.key()] {
+				ok = false
+				changed = append(changed, r.key())
+			}
+		}
+		fs = append(fs, gofacts.LeanBool(ok))
 	}
-	linePop := popAnyway(ln.Body("Line", "popLoop"), "c.q")
-	mlinePop := popAnyway(ml.Body("MultiLine", "popLoop"), "mq") && gofacts.Has(ml.Body("MultiLine", "popLoop"), "mq = c.qs[index]")
-	runnerPop := popAnyway(rn.Body("RunnerQ", "popLoop"), "c.q")
-
-	lineOne := gofacts.Has(ln.Body("Line", "Run"), "{ c.startOnce.Do(func() { c.wg.Add(1) go c.popLoop() }) }")
-	mlinePer := gofacts.Has(ml.Body("MultiLine", "Run"), "{ for i := 0; i < c.slotSize; i++ { go c.popLoop(i) } }")
-	onceRun := "{ c.startOnce.Do(func() { if c.wg != nil { c.wg.Add(1) } go c.popLoop() }) }"
-	runnerOne := gofacts.Has(rn.Body("RunnerQ", "Run"), onceRun)
-	pchanOne := gofacts.Has(pc.Body("ProcChan", "Run"), onceRun)
-
-	resBuffered := func(f *gofacts.File) bool {
-		return all(gofacts.Has(f.Body("", "newAsyncCtx"), "rChan: make(chan AsyncR, 1)"),
-			gofacts.Has(f.Body("AsyncCtx", "SetR"), "{ m.rChan <- AsyncR{ r: r, err: err, } }"),
-			gofacts.Has(f.Body("AsyncCtx", "R"), "{ select { case <-m.ctx.Done(): return nil, m.ctx.Err() case rc := <-m.rChan: return rc.r, rc.err } }"))
+	locks := true
+	for _, r := range lockedQ {
+		f := shapeFiles[repo+"|"+r.file]
+		if f == nil {
+			f = gofacts.MustLoad(repo, r.file)
+		}
+		if f.LockCovered(f.Func(r.recv, r.name), "a.lock.Lock()", "a.lock.Unlock()") != "defer" {
+			locks = false
+			changed = append(changed, r.key()+":lock")
+		}
 	}
-	lineBuf := resBuffered(lnc) && gofacts.Has(ln.Body("Line", "popLoop"), "r, err = ac.call(ac.ctx, ac.param) if err != nil { ac.SetR(nil, err) } else { ac.SetR(r, nil) }")
-	mlineBuf := resBuffered(mlc) && gofacts.Has(ml.Body("MultiLine", "popLoop"), "r, err = ac.call(ac.ctx, index, ac.param) if err != nil { ac.SetR(nil, err) } else { ac.SetR(r, nil) }")
+	fs = append(fs, gofacts.LeanBool(locks))
 
-	twoWay := "{ select { case <-c.ctx.Done(): return nil, c.ctx.Err() case <-c.wait: return c.result, c.err } }"
-	threeWay := "{ select { case <-c.ctx.Done(): return nil, c.ctx.Err() case <-stopChan: return nil, ErrClosed case <-c.wait: return c.result, c.err } }"
-	skip := "select { case <-c.ctx.Done(): c.err = c.ctx.Err() return default: }"
-	runnerWait, skips := true, true
-	for _, t := range []string{"callCtxT", "delegateCtxT", "procCtxT"} {
-		run := rc.Body(t, "run")
-		runnerWait = runnerWait && gofacts.Has(run, "defer close(c.wait)") && gofacts.Has(rc.Body(t, "r"), twoWay)
-		skips = skips && gofacts.Has(run, skip) && gofacts.Before(run, "defer close(c.wait)", skip)
+	cfgOf := func(key string) string {
+		parts := strings.SplitN(key, "|", 2)
+		recv, name := "", parts[1]
+		if i := strings.Index(name, "."); i >= 0 {
+			recv, name = name[:i], name[i+1:]
+		}
+		if v, ok := cfgShapes[key][shapeOf(repo, fnRef{parts[0], recv, name})]; ok {
+			return v
+		}
+		return "unknown"
 	}
-	runnerWait = runnerWait && gofacts.Has(rn.Body("RunnerQ", "popLoop"), "cc.run()")
-	prun := pc.Body("procChanCtxT", "run")
-	pchanWait := gofacts.Has(prun, "defer close(c.wait)") && gofacts.Has(pc.Body("procChanCtxT", "r"), threeWay) &&
-		gofacts.Has(pc.Body("ProcChan", "popLoop"), "select { case cc = <-c.ch: cc.run() case <-c.stopChan:")
-	skips = skips && gofacts.Has(prun, skip) && gofacts.Before(prun, "defer close(c.wait)", skip)
+	accept := cfgOf(fPchan + "|ProcChan.addCallCtx")
+	runGuard := cfgOf(fMline + "|MultiLine.Run")
 
-	stopOnce := all(gofacts.Has(ln.Body("Line", "Stop"), "{ c.stopOnce.Do(func() { c.q.Close() }) }"),
-		gofacts.Has(ml.Body("MultiLine", "Stop"), "{ c.stopOnce.Do(c.stop) }"),
-		gofacts.Has(ml.Body("MultiLine", "stop"), "for i := 0; i < c.slotSize; i++ { c.qs[i].Close() }"),
-		gofacts.Has(rn.Body("RunnerQ", "Stop"), "{ c.stopOnce.Do(func() { c.q.Close() }) }"),
-		gofacts.Has(pc.Body("ProcChan", "Stop"), "{ c.stopOnce.Do(func() { close(c.stopChan) }) }"))
-
-	mlAdd := ml.Body("MultiLine", "addCallCtx")
-	laneIsSlot := all(gofacts.Has(mlAdd, "var slotIndex = pipe.NormalizeSlotIndex(callCtx.hashIndex, c.slotSize)"),
-		gofacts.Has(mlAdd, "c.qs[slotIndex].AddReq(proc)"),
-		gofacts.Has(ml.Body("MultiLine", "IndexOf"), "{ return pipe.NormalizeSlotIndex(i, c.slotSize) }"),
-		gofacts.Has(ln.Body("Line", "addCallCtx"), "c.q.AddReq(proc)"),
-		gofacts.Has(rn.Body("RunnerQ", "addCallCtx"), "c.q.Add(callCtx)"),
-		gofacts.Has(rn.Body("RunnerQ", "addDelegateCtx"), "c.q.Add(delegateCtx)"),
-		gofacts.Has(rn.Body("RunnerQ", "addProcCtx"), "c.q.Add(procCtx)"))
-
-	fifo := func(f *gofacts.File, add, fullErr, max string) bool {
-		a := f.Body("Q", add)
-		po := f.Body("Q", "pop")
-		return all(gofacts.Has(a, "{ a.lock.Lock() defer a.lock.Unlock() if a.closed { return ErrClosed } if a."+max+" > 0 { if a.reqList.Len() >= a."+max+" { return "+fullErr+" } } a.reqList.PushBack(req) a.cond.Broadcast() return nil }"),
-			gofacts.Has(po, "{ a.lock.Lock() defer a.lock.Unlock() for a.reqList.Len() == 0 { if a.closed { return nil, ErrClosed } a.cond.Wait() } if checkClose { if a.closed { return nil, ErrClosed } }"),
-			gofacts.Has(po, "var front = a.reqList.Front() if front != nil { a.reqList.Remove(front) return front.Value, nil }"),
-			gofacts.Has(f.Body("Q", "PopAnyway"), "{ return a.pop(false) }"),
-			gofacts.Has(f.Body("Q", "Close"), "a.closed = true a.cond.Broadcast()"))
-	}
-	qFifo := fifo(pq, "AddReq", "ErrReqQFull", "reqMaxNum") && fifo(aq, "Add", "ErrFull", "size")
-
-	// every accepted call owns a freshly allocated context object; the entry points only add it and wait on it
-	lit := func(f *gofacts.File, fn, want string) bool { return gofacts.Norm(f.Body("", fn)) == gofacts.Norm(want) }
-	meth := func(f *gofacts.File, recv, fn, want string) bool {
-		return gofacts.Norm(f.Body(recv, fn)) == gofacts.Norm(want)
-	}
-	asyncCtx := "{ return &AsyncCtx{ ctx: ctx, call: call, param: param, rChan: make(chan AsyncR, 1), } }"
-	fresh := all(
-		lit(lnc, "newAsyncCtx", asyncCtx), lit(mlc, "newAsyncCtx", asyncCtx),
-		lit(rc, "newCallCtx", `{ var fnType, valid = validateFn(fn) if !valid { panic("new async call in case function is nil") } return &callCtxT{ ctx: ctx, functionType: fnType, functionValue: reflect.ValueOf(fn), arg: arg, wait: make(chan struct{}), } }`),
-		lit(rc, "newDelegateCtx", "{ return &delegateCtxT{ ctx: ctx, delegate: delegate, wait: make(chan struct{}), } }"),
-		lit(rc, "newProcCtx", "{ return &procCtxT{ ctx: ctx, proc: proc, wait: make(chan struct{}), } }"),
-		lit(pc, "newProcChanCtx", "{ return &procChanCtxT{ ctx: ctx, proc: proc, wait: make(chan struct{}), } }"),
-		meth(ln, "Line", "AsyncCall", "{ var proc, err = c.addCallCtx(ctx, callCtx) if err != nil { return nil, err } return proc.R() }"),
-		meth(ml, "MultiLine", "AsyncCall", "{ var proc, err = c.addCallCtx(ctx, callCtx) if err != nil { return nil, err } return proc.R() }"),
-		meth(ln, "Line", "addCallCtx", "{ var proc = newAsyncCtx(ctx, callCtx.Call, callCtx.Param) var err = pipe.ConvertQueueErr(c.q.AddReq(proc)) return proc, err }"),
-		meth(ml, "MultiLine", "addCallCtx", "{ var slotIndex = pipe.NormalizeSlotIndex(callCtx.hashIndex, c.slotSize) var proc = newAsyncCtx(ctx, callCtx.call, callCtx.param) var err = pipe.ConvertQueueErr(c.qs[slotIndex].AddReq(proc)) return proc, err }"),
-		meth(rn, "RunnerQ", "AsyncCall", "{ var proc, err = c.addCallCtx(ctx, fn, arg) if err != nil { return nil, err } return proc.r() }"),
-		meth(rn, "RunnerQ", "AsyncDelegate", "{ var procCtx, err = c.addDelegateCtx(ctx, delegate) if err != nil { return nil, err } return procCtx.r() }"),
-		meth(rn, "RunnerQ", "AsyncProc", "{ var procCtx, err = c.addProcCtx(ctx, proc) if err != nil { return nil, err } return procCtx.r() }"),
-		meth(rn, "RunnerQ", "addCallCtx", "{ var callCtx = newCallCtx(ctx, fn, arg) var err = c.q.Add(callCtx) return callCtx, err }"),
-		meth(rn, "RunnerQ", "addDelegateCtx", "{ var delegateCtx = newDelegateCtx(ctx, delegate) var err = c.q.Add(delegateCtx) return delegateCtx, err }"),
-		meth(rn, "RunnerQ", "addProcCtx", "{ var procCtx = newProcCtx(ctx, proc) var err = c.q.Add(procCtx) return procCtx, err }"),
-		meth(pc, "ProcChan", "AsyncProc", "{ var procCtx, err = c.addCallCtx(ctx, proc) if err != nil { return nil, err } return procCtx.r(c.stopChan) }"),
-		gofacts.Has(pc.Body("ProcChan", "addCallCtx"), "{ var procCtx = newProcChanCtx(ctx, proc) select {"),
-		lit(lnc, "NewCallCtx", "{ return &CallCtx{ Call: call, Param: param, } }"),
-		lit(mlc, "NewCallCtx", "{ return &CallCtx{ call: call, param: param, hashIndex: hashIndex, } }"))
-
-	// ProcChan accept path
-	accept := "unknown"
-	padd := pc.Body("ProcChan", "addCallCtx")
-	three := "select { case c.ch <- procCtx: return procCtx, nil case <-c.stopChan: return procCtx, ErrClosed default: return procCtx, ErrFull }"
-	pre := "select { case <-c.stopChan: return procCtx, ErrClosed default: }"
-	switch {
-	case gofacts.Has(padd, pre) && gofacts.Has(padd, three) && gofacts.Before(padd, pre, three):
-		accept = "stopFirst"
-	case gofacts.Has(padd, "{ var procCtx = newProcChanCtx(ctx, proc) "+three+" }"):
-		accept = "racyThreeWaySelect"
-	}
-
-	facts := []bool{linePop, mlinePop, runnerPop, lineOne, mlinePer, runnerOne, pchanOne, lineBuf, mlineBuf, runnerWait, pchanWait,
-		skips, stopOnce, laneIsSlot, qFifo, fresh}
-	var fs []string
-	for _, b := range facts {
-		fs = append(fs, gofacts.LeanBool(b))
-	}
 	out := "import Nv.Model.C14\nset_option linter.unusedVariables false\n" +
-		"/-! GENERATED by `c14 extract` from syncx/pipe/{util.go,line,mline,async,q} — do not edit. -/\n" +
+		"/-! GENERATED by `c14 extract` from syncx/pipe/{util.go,option.go,line,mline,async,q} — do not edit. -/\n" +
 		"namespace Nv.Gen.C14\n" + kernel +
-		"def cfg : Nv.C14.Cfg := ⟨." + accept + "⟩\n" +
+		"def cfg : Nv.C14.Cfg := ⟨." + accept + ", ." + runGuard + "⟩\n" +
 		"def facts : Nv.C14.Facts := ⟨" + strings.Join(fs, ", ") + "⟩\n" +
 		"end Nv.Gen.C14\n"
 	if err := gofacts.WriteIfChanged(filepath.Join(leanDir, "Nv/Gen/C14.lean"), out); err != nil {
 		fmt.Fprintln(os.Stderr, err)
 		os.Exit(2)
 	}
-	fmt.Printf("extract C14: kernel NormalizeSlotIndex %s; pchanAccept=%s facts=%s\n", kmsg, accept, strings.Join(fs, ","))
+	fmt.Printf("extract C14: kernel NormalizeSlotIndex %s; pchanAccept=%s mlineRun=%s facts=%s changed=%v\n", kmsg, accept, runGuard, strings.Join(fs, ","), changed)
 }
 
 // ---------------------------------------------------------------- the real executors under a scheduler
@@ -221,8 +245,9 @@ type calleeErr struct{ v int }
 func (e calleeErr) Error() string { return "callee-error-" + strconv.Itoa(e.v) }
 
 type finVal struct {
-	ok bool
-	v  int
+	ok   bool
+	v    int
+	boom bool // the callee panics instead of returning
 }
 
 type call struct {
@@ -245,28 +270,35 @@ type call struct {
 }
 
 type exec struct {
-	variant int // RunnerQ context kind: -1 alternate by call id, 0 reflective call, 1 delegate, 2 proc
-	kind    string
-	lanes   int
-	capQ    int
-	s       *sched.S
-	ln      *line.Line
-	ml      *mline.MultiLine
-	rq      *async.RunnerQ
-	pc      *async.ProcChan
-	exit    *sched.Task
-	exited  bool
-	stopped bool
-	mu      sync.Mutex
-	events  []string
-	calls   []*call
-	hits    map[string]string
-	laneRun map[int]int // lane -> id of the call running there (monitor)
-	laneSeq map[int]int // lane -> id of the last call started there
-	hold    chan struct{}
+	variant       int // RunnerQ context kind: -1 alternate by call id, 0 reflective call, 1 delegate, 2 proc
+	kind          string
+	lanes         int
+	capQ          int
+	s             *sched.S
+	ln            *line.Line
+	ml            *mline.MultiLine
+	rq            *async.RunnerQ
+	pc            *async.ProcChan
+	exit          *sched.Task
+	exited        bool
+	stopped       bool
+	mu            sync.Mutex
+	events        []string
+	calls         []*call
+	hits          map[string]string
+	laneRun       map[int]int // lane -> id of the call running there (monitor)
+	laneSeq       map[int]int // lane -> id of the last call started there
+	hold          chan struct{}
+	runFn, waitFn func()
+	loopName      string
+	runs, extra   int // Run() calls so far; consumer goroutines added by calls after the first
 }
 
 var currentScript []string
+
+// set in the child process: streams every op's output / every monitor hit as soon as it exists
+var progress func(i int, out string)
+var hitSink func(key, what string)
 
 func harnessFail(err error) {
 	fmt.Fprintln(os.Stderr, "harness error while running script", currentScript, ":", err)
@@ -279,6 +311,9 @@ func (e *exec) hit(key, what string) {
 	}
 	if _, ok := e.hits[key]; !ok {
 		e.hits[key] = what
+		if hitSink != nil {
+			hitSink(key, what)
+		}
 	}
 }
 
@@ -306,24 +341,39 @@ func newExec(kind string, lanes, capQ int) *exec {
 	case "line":
 		wg := &sync.WaitGroup{}
 		e.ln = line.NewLine(wg, line.WithQSize(capQ), line.WithName("verif"))
-		e.ln.Run()
-		e.exit = e.s.Go("exit", func() string { wg.Wait(); return "exited" })
+		e.runFn, e.waitFn, e.loopName = e.ln.Run, wg.Wait, "line.(*Line).popLoop"
 	case "mline":
 		e.ml = mline.NewMultiLine(pipe.WithSlotSize(lanes), pipe.WithQSize(capQ))
-		e.ml.Run()
-		e.exit = e.s.Go("exit", func() string { _ = e.ml.WaitStop(context.Background()); return "exited" })
+		e.runFn, e.waitFn, e.loopName = e.ml.Run, func() { _ = e.ml.WaitStop(context.Background()) }, "mline.(*MultiLine).popLoop"
 	case "runner":
 		e.rq = async.NewRunnerQ(async.WithQSize(capQ), async.WithName("verif"))
-		e.rq.Run()
-		e.exit = e.s.Go("exit", func() string { e.rq.WaitStop(); return "exited" })
+		e.runFn, e.waitFn, e.loopName = e.rq.Run, e.rq.WaitStop, "async.(*RunnerQ).popLoop"
 	case "pchan":
 		wg := &sync.WaitGroup{}
 		e.pc = async.NewProcChan(async.WithQSize(capQ), async.WithWaitGroup(wg), async.WithName("verif"))
-		e.pc.Run()
-		e.exit = e.s.Go("exit", func() string { wg.Wait(); return "exited" })
+		e.runFn, e.waitFn, e.loopName = e.pc.Run, wg.Wait, "async.(*ProcChan).popLoop"
 	}
 	e.settle()
 	return e
+}
+
+// run calls Run(); the exit waiter starts with the first call. A later call must not add consumers:
+// the number of goroutines inside this executor's popLoop is counted before and after.
+func (e *exec) run() {
+	before := c14q.CountIn(e.loopName)
+	e.runFn()
+	e.runs++
+	if e.runs == 1 {
+		wait := e.waitFn
+		e.exit = e.s.Go("exit", func() string { wait(); return "exited" })
+	}
+	e.settle()
+	if e.runs > 1 {
+		if after := c14q.CountIn(e.loopName); after > before {
+			e.extra += after - before
+			e.hit("C14:"+kindName(e.kind)+".Run:second-call-adds-consumer", fmt.Sprintf("Run() call no. %d started %d more consumer goroutine(s) on %d lane(s)", e.runs, after-before, e.lanes))
+		}
+	}
 }
 
 func (e *exec) settle() {
@@ -333,8 +383,29 @@ func (e *exec) settle() {
 }
 
 // body of every callee: record start (with the lane index it was given), wait for the script, record end.
-func (e *exec) body(c *call, lane int) (interface{}, error) {
+type ctxKey struct{}
+
+// what the lane handed the callee must be what the caller gave: its context (identity via a value, and Done state)
+// and its argument
+func (e *exec) checkHanded(c *call, ctx context.Context, arg interface{}, hasArg bool) {
+	name := kindName(e.kind)
+	if ctx == nil || ctx.Value(ctxKey{}) != c.id {
+		var got interface{}
+		if ctx != nil {
+			got = ctx.Value(ctxKey{})
+		}
+		e.hit("C14:"+name+":wrong-context", fmt.Sprintf("the callee of call %d was handed a context that is not its caller's (tag %v)", c.id, got))
+	} else if (ctx.Err() != nil) != c.cancelled {
+		e.hit("C14:"+name+":wrong-context", fmt.Sprintf("the callee of call %d sees ctx.Err()=%v, the caller's context cancelled=%v", c.id, ctx.Err(), c.cancelled))
+	}
+	if hasArg && arg != c.id {
+		e.hit("C14:"+name+":wrong-argument", fmt.Sprintf("the callee of call %d was handed argument %v", c.id, arg))
+	}
+}
+
+func (e *exec) body(c *call, lane int, ctx context.Context, arg interface{}, hasArg bool) (interface{}, error) {
 	e.mu.Lock()
+	e.checkHanded(c, ctx, arg, hasArg)
 	e.events = append(e.events, fmt.Sprintf("start:%d@%d", c.id, lane))
 	c.starts++
 	c.lane = lane
@@ -362,6 +433,9 @@ func (e *exec) body(c *call, lane int) (interface{}, error) {
 	}
 	e.mu.Unlock()
 	fv := <-c.gate
+	if fv.boom {
+		panic("boom-" + strconv.Itoa(c.id))
+	}
 	e.mu.Lock()
 	e.events = append(e.events, fmt.Sprintf("end:%d", c.id))
 	c.running = false
@@ -379,7 +453,7 @@ type procT struct {
 	c *call
 }
 
-func (p procT) Do(ctx context.Context) (interface{}, error) { return p.e.body(p.c, 0) }
+func (p procT) Do(ctx context.Context) (interface{}, error) { return p.e.body(p.c, 0, ctx, nil, false) }
 
 func canon(r interface{}, err error) string {
 	if err == nil {
@@ -403,18 +477,19 @@ func canon(r interface{}, err error) string {
 }
 
 func (e *exec) submit(id, hash int) {
-	ctx, cancel := context.WithCancel(context.Background())
+	cctx, cancel := context.WithCancel(context.Background())
+	ctx := context.WithValue(cctx, ctxKey{}, id)
 	c := &call{id: id, hash: hash, gate: make(chan finVal, 1), cancel: cancel, postStop: e.stopped}
 	e.calls = append(e.calls, c)
 	c.task = e.s.Go("call"+strconv.Itoa(id), func() string {
 		switch e.kind {
 		case "line":
 			return canon(e.ln.AsyncCall(ctx, line.NewCallCtx(func(ctx context.Context, req interface{}) (interface{}, error) {
-				return e.body(c, 0)
+				return e.body(c, 0, ctx, req, true)
 			}, id)))
 		case "mline":
 			return canon(e.ml.AsyncCall(ctx, mline.NewCallCtx(hash, func(ctx context.Context, sIndex int, req interface{}) (interface{}, error) {
-				return e.body(c, sIndex)
+				return e.body(c, sIndex, ctx, req, true)
 			}, id)))
 		case "runner":
 			v := e.variant
@@ -423,9 +498,9 @@ func (e *exec) submit(id, hash int) {
 			}
 			switch v {
 			case 0:
-				return canon(e.rq.AsyncCall(func(ctx context.Context, a int) (interface{}, error) { return e.body(c, 0) }, ctx, id))
+				return canon(e.rq.AsyncCall(func(ctx context.Context, a int) (interface{}, error) { return e.body(c, 0, ctx, a, true) }, ctx, id))
 			case 1:
-				return canon(e.rq.AsyncDelegate(ctx, func(ctx context.Context) (interface{}, error) { return e.body(c, 0) }))
+				return canon(e.rq.AsyncDelegate(ctx, func(ctx context.Context) (interface{}, error) { return e.body(c, 0, ctx, nil, false) }))
 			default:
 				return canon(e.rq.AsyncProc(ctx, procT{e, c}))
 			}
@@ -461,7 +536,7 @@ func (e *exec) drain() string {
 			evs = append(evs, fmt.Sprintf("ret:%d:%s", c.id, r))
 		}
 	}
-	if !e.exited {
+	if !e.exited && e.exit != nil {
 		if done, _ := e.exit.Done(); done {
 			e.exited = true
 			evs = append(evs, "exited")
@@ -521,7 +596,7 @@ func (c *call) accepted() bool {
 
 // at quiescence a lane with an accepted, never started call and nothing running is stuck
 func (e *exec) checkStuck() {
-	if e.exited {
+	if e.exited || e.runs == 0 {
 		return
 	}
 	e.mu.Lock()
@@ -576,8 +651,26 @@ func (e *exec) stop() {
 
 // finish the script: Stop, let every running callee return, then check drain / termination on the real code.
 func (e *exec) cleanup() {
+	if e.extra > 0 {
+		// extra consumers: Stop would drive the wait group negative inside the library; leave the goroutines behind
+		e.mu.Lock()
+		for _, c := range e.calls {
+			select {
+			case c.gate <- finVal{ok: true, v: 900 + c.id}:
+			default:
+			}
+			c.cancel()
+		}
+		e.mu.Unlock()
+		e.settle()
+		return
+	}
 	if !e.stopped {
 		e.stop()
+	}
+	neverRun := e.runs == 0
+	if neverRun {
+		e.run() // Run after Stop: the consumers drain the closed queues and leave
 	}
 	for round := 0; round < 10000; round++ {
 		e.drain()
@@ -587,7 +680,7 @@ func (e *exec) cleanup() {
 			if c.running && !c.twice {
 				any = true
 				select {
-				case c.gate <- finVal{true, 900 + c.id}:
+				case c.gate <- finVal{ok: true, v: 900 + c.id}:
 				default:
 				}
 			}
@@ -608,6 +701,13 @@ func (e *exec) cleanup() {
 			return
 		}
 	}
+	if neverRun {
+		for _, c := range e.calls {
+			c.cancel()
+		}
+		e.settle()
+		return
+	}
 	if !e.exited {
 		e.hit("C14:"+name+":lane-not-terminated", "after Stop and after every running call returned, the lane goroutines are still alive")
 	}
@@ -625,6 +725,161 @@ func (e *exec) cleanup() {
 		c.cancel()
 	}
 	e.settle()
+}
+
+// ---------------------------------------------------------------- parallel stress (real concurrency, child process)
+
+// hx is one executor under parallel load: callees return at once, every caller checks that it got its own value.
+type hx struct {
+	kind    string
+	variant int
+	call    func(ctx context.Context, id int, hash int, fn func(ctx context.Context, arg interface{}, hasArg bool) (interface{}, error)) (interface{}, error)
+	run     func()
+	stop    func()
+	wait    func()
+}
+
+func newHx(kind string, lanes int) *hx {
+	h := &hx{kind: kind, variant: -1}
+	if v, ok := runnerVariants[kind]; ok {
+		h.kind, h.variant = "runner", v
+	}
+	switch h.kind {
+	case "line":
+		wg := &sync.WaitGroup{}
+		ln := line.NewLine(wg, line.WithQSize(0))
+		h.run, h.stop, h.wait = ln.Run, ln.Stop, wg.Wait
+		h.call = func(ctx context.Context, id, hash int, fn func(context.Context, interface{}, bool) (interface{}, error)) (interface{}, error) {
+			return ln.AsyncCall(ctx, line.NewCallCtx(func(c context.Context, req interface{}) (interface{}, error) { return fn(c, req, true) }, id))
+		}
+	case "mline":
+		ml := mline.NewMultiLine(pipe.WithSlotSize(lanes), pipe.WithQSize(0))
+		h.run, h.stop, h.wait = ml.Run, ml.Stop, func() { _ = ml.WaitStop(context.Background()) }
+		h.call = func(ctx context.Context, id, hash int, fn func(context.Context, interface{}, bool) (interface{}, error)) (interface{}, error) {
+			return ml.AsyncCall(ctx, mline.NewCallCtx(hash, func(c context.Context, i int, req interface{}) (interface{}, error) { return fn(c, req, true) }, id))
+		}
+	case "runner":
+		rq := async.NewRunnerQ(async.WithQSize(0))
+		h.run, h.stop, h.wait = rq.Run, rq.Stop, rq.WaitStop
+		h.call = func(ctx context.Context, id, hash int, fn func(context.Context, interface{}, bool) (interface{}, error)) (interface{}, error) {
+			v := h.variant
+			if v < 0 {
+				v = id % 3
+			}
+			switch v {
+			case 0:
+				return rq.AsyncCall(func(c context.Context, a int) (interface{}, error) { return fn(c, a, true) }, ctx, id)
+			case 1:
+				return rq.AsyncDelegate(ctx, func(c context.Context) (interface{}, error) { return fn(c, nil, false) })
+			}
+			return rq.AsyncProc(ctx, procF(func(c context.Context) (interface{}, error) { return fn(c, nil, false) }))
+		}
+	default:
+		wg := &sync.WaitGroup{}
+		pc := async.NewProcChan(async.WithQSize(64), async.WithWaitGroup(wg))
+		h.run, h.stop, h.wait = pc.Run, pc.Stop, wg.Wait
+		h.call = func(ctx context.Context, id, hash int, fn func(context.Context, interface{}, bool) (interface{}, error)) (interface{}, error) {
+			return pc.AsyncProc(ctx, procF(func(c context.Context) (interface{}, error) { return fn(c, nil, false) }))
+		}
+	}
+	return h
+}
+
+type procF func(ctx context.Context) (interface{}, error)
+
+func (f procF) Do(ctx context.Context) (interface{}, error) { return f(ctx) }
+
+// hammer: (A) parallel callers with immediately returning callees — each caller must get exactly its own value and
+// every accepted call must have run exactly once; (B) Stop racing with a consumer that is just going idle — the lane
+// goroutines must terminate. Real parallelism (GOMAXPROCS 4), judged by monitors only.
+func hammer(kind string, seed, n int) map[string]string {
+	defer runtime.GOMAXPROCS(runtime.GOMAXPROCS(4))
+	hits := map[string]string{}
+	var mu sync.Mutex
+	hit := func(k, v string) {
+		mu.Lock()
+		if _, ok := hits[k]; !ok {
+			hits[k] = v
+		}
+		mu.Unlock()
+	}
+	name := kindName(strings.Split(kind, "-")[0])
+	if strings.HasPrefix(kind, "runner") {
+		name = "RunnerQ"
+	}
+	waitExit := func(h *hx, what string) bool {
+		done := make(chan struct{})
+		go func() { h.wait(); close(done) }()
+		select {
+		case <-done:
+			return true
+		case <-time.After(3 * time.Second):
+			hit("C14:"+name+":lane-not-terminated", what)
+			return false
+		}
+	}
+	// ---- A: parallel callers
+	{
+		h := newHx(kind, 3)
+		h.run()
+		const G = 4
+		per := 400 * n
+		ran := make([]int32, G*per)
+		var wg sync.WaitGroup
+		for g := 0; g < G; g++ {
+			g := g
+			wg.Add(1)
+			go func() {
+				defer wg.Done()
+				for j := 0; j < per; j++ {
+					id := g*per + j
+					ctx := context.WithValue(context.Background(), ctxKey{}, id)
+					r, err := h.call(ctx, id, id%7-3, func(c context.Context, arg interface{}, hasArg bool) (interface{}, error) {
+						atomic.AddInt32(&ran[id], 1)
+						if c == nil || c.Value(ctxKey{}) != id {
+							hit("C14:"+name+":wrong-context", fmt.Sprintf("parallel load: the callee of call %d was handed another context", id))
+						}
+						if hasArg && arg != id {
+							hit("C14:"+name+":wrong-argument", fmt.Sprintf("parallel load: the callee of call %d was handed argument %v", id, arg))
+						}
+						if id%5 == 0 {
+							return nil, calleeErr{id}
+						}
+						return id, nil
+					})
+					want := "ok" + strconv.Itoa(id)
+					if id%5 == 0 {
+						want = "err" + strconv.Itoa(id)
+					}
+					if got := canon(r, err); got != want {
+						hit("C14:"+name+":misrouted-result", fmt.Sprintf("parallel load (%d callers): caller of call %d received %s, its own callee returned %s", G, id, got, want))
+					}
+				}
+			}()
+		}
+		wg.Wait()
+		for id, c := range ran {
+			if c != 1 {
+				hit("C14:"+name+":call-executed-twice", fmt.Sprintf("parallel load: call %d was executed %d times", id, c))
+				break
+			}
+		}
+		h.stop()
+		waitExit(h, "after parallel load and Stop the lane goroutines are still alive")
+	}
+	// ---- B: Stop racing with the consumer going idle
+	for round := 0; round < 150*n; round++ {
+		h := newHx(kind, 1)
+		h.run()
+		for j := 0; j <= round%3; j++ {
+			_, _ = h.call(context.WithValue(context.Background(), ctxKey{}, j), j, 0, func(context.Context, interface{}, bool) (interface{}, error) { return j, nil })
+		}
+		h.stop()
+		if !waitExit(h, fmt.Sprintf("Stop right after the last result (round %d): the lane goroutine never terminated", round)) {
+			break
+		}
+	}
+	return hits
 }
 
 // ---------------------------------------------------------------- script runner
@@ -723,7 +978,7 @@ func runScript(lines []string) ([]string, map[string]string) {
 				running := c.running && !c.twice
 				e.mu.Unlock()
 				if running {
-					c.gate <- finVal{w[2] == "ok", v}
+					c.gate <- finVal{ok: w[2] == "ok", v: v}
 					out = e.drain()
 				} else {
 					out = "not-running"
@@ -745,6 +1000,44 @@ func runScript(lines []string) ([]string, map[string]string) {
 		case len(w) == 1 && w[0] == "stop" && e != nil:
 			e.stop()
 			out = e.drain()
+		case len(w) == 4 && w[0] == "hammer":
+			_, okk := runnerVariants[w[1]]
+			seed, ok1 := parseNat(w[2])
+			n, ok2 := parseNat(w[3])
+			if (okk || w[1] == "line" || w[1] == "mline" || w[1] == "pchan") && ok1 && ok2 && n <= 64 {
+				for k, v := range hammer(w[1], seed, n) {
+					if _, ok := hits[k]; !ok {
+						hits[k] = v
+						if hitSink != nil {
+							hitSink(k, v)
+						}
+					}
+				}
+				out = "done"
+			}
+		case len(w) == 1 && w[0] == "run" && e != nil:
+			e.run()
+			out = e.drain()
+		case len(w) == 2 && w[0] == "boom" && e != nil:
+			id, ok1 := parseNat(w[1])
+			if ok1 && id < len(e.calls) {
+				c := e.calls[id]
+				e.mu.Lock()
+				running := c.running && !c.twice
+				e.mu.Unlock()
+				out = "not-running"
+				if running {
+					// no executor recovers a callee's panic: the process is expected to die here (child process)
+					c.gate <- finVal{boom: true}
+					e.settle()
+					time.Sleep(50 * time.Millisecond)
+					out = "survived-callee-panic:" + e.drain()
+					e.hit("C14:"+kindName(e.kind)+":callee-panic-swallowed", fmt.Sprintf("the callee of call %d panicked, the process went on: %s", id, out))
+				}
+			}
+		}
+		if progress != nil {
+			progress(len(outs), out)
 		}
 		outs = append(outs, out)
 	}
@@ -761,10 +1054,19 @@ func runScript(lines []string) ([]string, map[string]string) {
 func amplify(tag string, lines []string) (n int, oneP bool) {
 	many := tag == "replay" || tag == "corpus" || strings.HasPrefix(tag, "witness")
 	pchan, stopped, cancelled := false, false, false
+	runs := 0
 	for _, l := range lines {
 		switch {
+		case strings.HasPrefix(l, "boom "):
+			return 1, true // the process is expected to die: child process
+		case l == "run":
+			if runs++; runs > 1 {
+				n, oneP = 2, true // a second consumer would make Stop crash inside the library: child process
+			}
+		case strings.HasPrefix(l, "hammer "):
+			return 1, true
 		case strings.HasPrefix(l, "new "):
-			pchan, stopped, cancelled = strings.HasPrefix(l, "new pchan "), false, false
+			pchan, stopped, cancelled, runs = strings.HasPrefix(l, "new pchan "), false, false, 0
 		case l == "stop":
 			stopped = true
 		case strings.HasPrefix(l, "cancel "):
@@ -813,7 +1115,23 @@ func runScriptChild() {
 			os.Exit(2)
 		}
 		seen := map[string]bool{}
+		hitSink = func(key, what string) {
+			if !seen[key] {
+				seen[key] = true
+				b, _ := json.Marshal(corr.Hit{Key: key, What: what})
+				fmt.Fprintf(w, "H %s\n", b)
+				w.Flush()
+			}
+		}
 		for i := 0; i < req.N; i++ {
+			progress = nil
+			if i == 0 {
+				progress = func(j int, out string) {
+					b, _ := json.Marshal(out)
+					fmt.Fprintf(w, "o %s\n", b)
+					w.Flush()
+				}
+			}
 			outs, hits := runScript(req.Lines)
 			if i == 0 {
 				b, _ := json.Marshal(outs)
@@ -904,6 +1222,7 @@ func runInChild(lines []string, n int) corr.Result {
 	c.in.WriteByte('\n')
 	c.in.Flush()
 	ended := false
+	var partial []string
 	timer := time.AfterFunc(120*time.Second, func() { _ = c.cmd.Process.Kill() })
 	for c.out.Scan() {
 		l := c.out.Text()
@@ -912,12 +1231,23 @@ func runInChild(lines []string, n int) corr.Result {
 			break
 		}
 		switch {
+		case strings.HasPrefix(l, "o ") && res.Outs == nil:
+			var o string
+			if json.Unmarshal([]byte(l[2:]), &o) == nil {
+				partial = append(partial, o)
+			}
 		case strings.HasPrefix(l, "O "):
 			_ = json.Unmarshal([]byte(l[2:]), &res.Outs)
 		case strings.HasPrefix(l, "H "):
 			var h corr.Hit
 			if json.Unmarshal([]byte(l[2:]), &h) == nil {
-				res.Hits = append(res.Hits, h)
+				dup := false
+				for _, old := range res.Hits {
+					dup = dup || old.Key == h.Key
+				}
+				if !dup {
+					res.Hits = append(res.Hits, h)
+				}
 			}
 		}
 	}
@@ -933,6 +1263,15 @@ func runInChild(lines []string, n int) corr.Result {
 		if strings.Contains(msg, "harness error") || !(strings.Contains(msg, "panic:") || strings.Contains(msg, "fatal error:")) {
 			fmt.Fprintln(os.Stderr, msg)
 			harnessFail(fmt.Errorf("child failed while running %v", lines))
+		}
+		// a callee that panics takes the process down in every executor: expected where the script says `boom`
+		if res.Outs == nil && len(partial) < len(lines) && strings.HasPrefix(lines[len(partial)], "boom ") &&
+			strings.Contains(msg, "panic: boom-"+strings.TrimPrefix(lines[len(partial)], "boom ")) {
+			res.Outs = append([]string{}, partial...)
+			for len(res.Outs) < len(lines) {
+				res.Outs = append(res.Outs, "crash")
+			}
+			return res
 		}
 		first, where := "panic", ""
 		for _, l := range strings.Split(msg, "\n") {
@@ -954,9 +1293,9 @@ func runInChild(lines []string, n int) corr.Result {
 		child = nil
 	}
 	if len(res.Outs) != len(lines) {
-		res.Outs = make([]string, len(lines))
-		for i := range res.Outs {
-			res.Outs[i] = "crashed"
+		res.Outs = append([]string{}, partial...)
+		for len(res.Outs) < len(lines) {
+			res.Outs = append(res.Outs, "crashed")
 		}
 	}
 	return res
@@ -1173,6 +1512,72 @@ func genGiveUp(r *rng.R, kind string) []string {
 	return lines
 }
 
+// withRun inserts `run` after every `new` line (mode 0), or later / never for the first executor (modes 1, 2).
+func withRun(lines []string, mode int) []string {
+	var out []string
+	first := true
+	for i, l := range lines {
+		out = append(out, l)
+		if strings.HasPrefix(l, "new ") {
+			switch {
+			case mode == 0 || !first:
+				out = append(out, "run")
+			case mode == 1: // later: after about a third of the script
+				at := i + 1 + (len(lines)-i)/3
+				rest := append([]string{}, lines[i+1:]...)
+				if at-i-1 > len(rest) {
+					at = i + 1 + len(rest)
+				}
+				out = append(out, rest[:at-i-1]...)
+				out = append(out, "run")
+				out = append(out, rest[at-i-1:]...)
+				return out
+			}
+			first = false
+		}
+	}
+	return out
+}
+
+func genRunTwice(r *rng.R, kind string) []string {
+	lanes := 1
+	if kind == "mline" {
+		lanes = r.PickInt(1, 2, 3)
+	}
+	lines := []string{fmt.Sprintf("new %s %d %d", kind, lanes, r.PickInt(0, 4, 8)), "run"}
+	next := 0
+	second := r.Range(0, 3)
+	n := r.Range(3, 6)
+	for i := 0; i < n; i++ {
+		if i == second {
+			lines = append(lines, "run")
+		}
+		lines = append(lines, fmt.Sprintf("call %d %d", next, r.Range(0, 2)))
+		next++
+	}
+	for id := 0; id < next; id++ {
+		lines = append(lines, fmt.Sprintf("fin %d ok %d", id, r.Range(0, 99)))
+	}
+	return lines
+}
+
+func genBoom(r *rng.R, kind string) []string {
+	lines := []string{fmt.Sprintf("new %s 1 %d", kind, r.PickInt(0, 4, 8)), "run"}
+	n := r.Range(1, 4)
+	for id := 0; id < n; id++ {
+		lines = append(lines, fmt.Sprintf("call %d 1", id))
+	}
+	victim := r.Intn(n)
+	for id := 0; id < victim; id++ {
+		lines = append(lines, fmt.Sprintf("fin %d %s %d", id, r.Pick("ok", "err"), r.Range(0, 99)))
+	}
+	lines = append(lines, fmt.Sprintf("boom %d", victim))
+	for id := victim + 1; id < n; id++ {
+		lines = append(lines, fmt.Sprintf("fin %d ok %d", id, r.Range(0, 99)))
+	}
+	return lines
+}
+
 func genKernel(r *rng.R) []string {
 	lines := []string{"new line 1 0"}
 	for i := 0; i < 10; i++ {
@@ -1190,7 +1595,7 @@ func genKernel(r *rng.R) []string {
 }
 
 func genGarbage(r *rng.R) []string {
-	toks := []string{"new", "call", "fin", "cancel", "stop", "slot", "line", "mline", "pchan", "runner", "runner-call", "runner-x", "ok", "err", "0", "1", "-1", "x",
+	toks := []string{"new", "call", "fin", "cancel", "stop", "run", "boom", "hammer", "slot", "line", "mline", "pchan", "runner", "runner-call", "runner-x", "ok", "err", "0", "1", "-1", "x",
 		"99999999999999999999", "1e3", "+1", "", "  ", "0x10", "-9223372036854775809"}
 	lines := []string{r.Pick("new line 1 1", "new mline 2 0", "new bogus 1 1", "new line 2 0", "new pchan 1 1", "new runner 0 0")}
 	for i := 0; i < 8; i++ {
@@ -1206,7 +1611,8 @@ func genGarbage(r *rng.R) []string {
 
 func fixedCases() []corr.Case {
 	var cs []corr.Case
-	add := func(tag string, lines ...string) { cs = append(cs, corr.Case{Tag: tag, Lines: lines}) }
+	raw := func(tag string, lines ...string) { cs = append(cs, corr.Case{Tag: tag, Lines: lines}) }
+	add := func(tag string, lines ...string) { raw(tag, withRun(lines, 0)...) }
 	min := strconv.Itoa(math.MinInt64)
 	// F13: MinInt on the default 509 lanes
 	add("witness-F13", "new mline 509 0", "slot "+min+" 509", "call 0 "+min, "call 1 -151", "call 2 151", "fin 1 ok 5")
@@ -1227,6 +1633,20 @@ func fixedCases() []corr.Case {
 		add("witness-giveup", "new "+k+" 1 8", "call 0 1", "call 1 1", "call 2 1", "cancel 2", "cancel 1", "call 3 1", "call 4 1", "cancel 3", "call 5 1", "fin 0 ok 10", "fin 1 ok 11", "fin 2 ok 12", "fin 3 ok 13", "fin 4 ok 14", "fin 5 ok 15", "stop")
 	}
 	add("boundary", "new mline 2 0", "call 0 0", "call 1 1", "call 2 2", "call 3 3", "call 4 -1", "call 5 -2", "fin 1 ok 1", "fin 0 ok 0", "stop", "fin 2 ok 2", "fin 3 ok 3", "fin 4 ok 4", "fin 5 ok 5")
+	for _, k := range []string{"line", "mline", "runner-call", "runner-delegate", "runner-proc", "pchan"} {
+		// Run twice: still one consumer per lane, calls on one lane never overlap
+		raw("witness-runtwice", "new "+k+" 1 4", "run", "run", "call 0 1", "call 1 1", "fin 0 ok 1", "fin 1 ok 2")
+		raw("witness-runtwice", "new "+k+" 1 4", "run", "call 0 1", "run", "call 1 1", "call 2 1", "fin 0 ok 1", "fin 1 ok 2", "run", "fin 2 ok 3")
+		// calls before Run wait; Run after Stop drains; Stop without Run
+		raw("boundary-run", "new "+k+" 1 4", "call 0 1", "call 1 1", "run", "fin 0 ok 1", "fin 1 err 2", "stop")
+		raw("boundary-run", "new "+k+" 1 4", "call 0 1", "stop", "call 1 1", "run", "fin 0 ok 1")
+		raw("boundary-run", "new "+k+" 1 4", "stop", "run", "call 0 1")
+		raw("boundary-run", "new "+k+" 1 4", "call 0 1", "cancel 0", "stop")
+		// a callee that panics: no executor recovers it (the process dies); it must not be run a second time
+		raw("witness-boom", "new "+k+" 1 4", "run", "call 0 1", "call 1 1", "boom 0", "fin 1 ok 1")
+		raw("witness-boom", "new "+k+" 1 4", "run", "call 0 1", "fin 0 ok 1", "call 1 1", "boom 1")
+		raw("hammer", "new line 1 0", "hammer "+k+" 1 4")
+	}
 	return cs
 }
 
@@ -1257,9 +1677,26 @@ func spec() corr.Spec {
 				return corr.Case{Tag: "malformed", Lines: genGarbage(r)}
 			case i%16 == 5:
 				k := giveupKinds[(i/16)%len(giveupKinds)]
-				return corr.Case{Tag: "giveup-" + k, Lines: genGiveUp(r, k)}
+				return corr.Case{Tag: "giveup-" + k, Lines: withRun(genGiveUp(r, k), 0)}
+			case i%50 == 9:
+				k := giveupKinds[(i/50)%len(giveupKinds)]
+				return corr.Case{Tag: "runtwice-" + k, Lines: genRunTwice(r, k)}
+			case i%50 == 29:
+				k := giveupKinds[(i/50)%len(giveupKinds)]
+				return corr.Case{Tag: "boom-" + k, Lines: genBoom(r, k)}
+			case i%400 == 63 || (tier != "quick" && i%100 == 63):
+				k := giveupKinds[(i/100)%len(giveupKinds)]
+				return corr.Case{Tag: "hammer", Lines: []string{"new line 1 0", fmt.Sprintf("hammer %s %d %d", k, r.Range(0, 1<<20), r.Range(2, 6))}}
 			}
 			ls, giveUp := genScript(r, tier)
+			mode := 0
+			switch {
+			case i%12 == 1:
+				mode = 1 // Run later: calls before Run wait in the queue
+			case i%40 == 3:
+				mode = 2 // never Run
+			}
+			ls = withRun(ls, mode)
 			tag := "script-" + strings.Fields(ls[0])[1]
 			if giveUp {
 				tag += "+giveup"
